@@ -738,7 +738,7 @@ fn sizes() -> String {
     use std::mem::size_of as s;
     format!(
         "SIZES thread_raw={} module_raw={} memdesc_raw={} memdesc64_raw={} meminfo_raw={} threadinfo_raw={} unloaded_raw={} threadname_raw={} \
-         thread={} module={} memory={} memory64={} threadinfo={} unloaded={} handle={} string={} module_crashpad={}",
+         thread={} module={} memory={} memory64={} threadinfo={} unloaded={} handle={} string={} module_crashpad={} range_entry={}",
         s::<md::MINIDUMP_THREAD>(),
         s::<md::MINIDUMP_MODULE>(),
         s::<md::MINIDUMP_MEMORY_DESCRIPTOR>(),
@@ -756,6 +756,7 @@ fn sizes() -> String {
         s::<MinidumpHandleDescriptor>(),
         s::<String>(),
         s::<MinidumpModuleCrashpadInfo>(),
+        s::<(range_map::Range<u64>, usize)>(),
     )
 }
 
